@@ -64,6 +64,10 @@ BODIES = {
 ENDPOINTS = ['/authenticate', '/refresh', '/validate', '/signout', '/invalidate', '/join']
 
 
+# a few operation sequences that every run performs (indices into ops: 0 authenticate, 2 refresh, 3 validate, 4 invalidate, 5 join)
+SCRIPTED = [[0, 5, 2, 5], [0, 2, 5, 2, 5, 3], [0, 5, 5, 2, 2, 5], [0, 3, 5, 4, 5], [5, 0, 5, 2, 5], [0, 5, 0, 5, 2, 5]]
+
+
 def judge(out, after, got_reqs, r, agent=('Minecraft', 1)):
     """compares one observed operation with the model's (outcome, token afterwards, requests)"""
     mout, mtok, mreqs = r
@@ -116,7 +120,9 @@ def run(chk):
         for mask in range(32):
             states.append(tuple(v if mask >> i & 1 else None for i, v in enumerate(['user@example.com', 'ACC0', 'CLI0', 'PID0', 'Name0'])))
         states += [('', 'ACC0', 'CLI0', 'PID0', 'Name0'), ('u', '', 'CLI0', 'PID0', 'Name0'), ('u', 'ACC0', '', 'PID0', 'Name0'), ('u', 'a', 'c', '', '')]
-        ops = [('authenticate', 'alice', 'pw', False), ('authenticate', 'alice', 'pw', True), ('refresh',), ('validate',), ('invalidate',), ('join', 'serverhash'), ('sign_out', 'alice', 'pw')]
+        ops = [('authenticate', 'alice', 'pw', False), ('authenticate', 'alice', 'pw', True), ('refresh',), ('validate',), ('invalidate',), ('join', 'serverhash'), ('sign_out', 'alice', 'pw'),
+               # posted and stored exactly as given: no trimming, case folding or Unicode normalisation
+               ('authenticate', 'e\u0308mil@Example.COM ', ' pa\u030ass\u212b', False), ('sign_out', 'A\u030a\u2126', 'p\ufb01n '), ('join', 'e\u0301\u212b')]
         statuses = [200, 204, 400, 403, 404, 429, 500, 503]
         plan = list(itertools.product(states, ops, statuses, sorted(BODIES)))
         if not th:
@@ -221,8 +227,12 @@ def run(chk):
             # most sequences start by authenticating, so that the later steps act on a live token
             first = [('authenticate', 'alice', 'pw', False)] if n % 4 else []
             steps = first + [rng.choice(ops) for _ in range(rng.randrange(3, 9))]
+            if n < len(SCRIPTED):
+                steps = [ops[j] if isinstance(j, int) else j for j in SCRIPTED[n]]
             for k, op in enumerate(steps):
                 status = 200 if (k == 0 and first) else rng.choice([200, 200, 200, 204] + statuses)
+                if n < len(SCRIPTED):
+                    status = 204 if op[0] in ('validate', 'invalidate', 'join') else 200
                 if status == 200 and op[0] in ('authenticate', 'refresh'):
                     bk = 'result'
                     prof = rng.choice([('PID%d' % k, 'Name%d' % k), ('PID0', 'Renamed%d' % k), ('PID0', 'Name0')])
